@@ -29,6 +29,7 @@ fn main() {
         "C02-cli" => vcore::props::c02::run_cli(&args, &mut rep),
         "C02-accept" => vcore::props::c02::run_accept(&args, &mut rep),
         "C07-direct" => vcore::props::c07::run_direct(&args, &mut rep),
+        "C11-dyn" => vcore::props::c11dyn::run(&args, &mut rep),
         "C07-scalars" => vcore::props::c07::run_scalars(&args, &mut rep),
         "C07-random" => vcore::props::c07::run_random(&args, &mut rep),
         "C08-direct" => vcore::props::c07::run_c08_direct(&args, &mut rep),
